@@ -14,7 +14,7 @@ PROPERTY = "C04"
 
 META = {
     "bounds": {
-        "quick": "a in [0,2^24), m,n in [0,2^17); LoROM, HiROM + 16 .map configurations (two with a mirrored RAM range); laws: translate, advance, associativity",
+        "quick": "a in [0,2^24), m,n in [0,2^17); LoROM, HiROM + 16 .map configurations (two with a mirrored RAM range); laws: translate, advance (also from starts below the bank window: offset n larger than the start's own translation, result in-window), associativity",
         "thorough": "a in [0,2^24), m,n in [0,2^17); LoROM, HiROM + 60 .map configurations (incl. VERIF_SEED-drawn); same laws",
     },
     "outside": [
@@ -268,6 +268,12 @@ def check(spec, cx, out):
         res.append(("advance-offset", z3.Implies(pre, z3.BoolVal(False) if ph is None else bv(ph) == tgt)))
         res.append(("advance-in-window-same-range", z3.Implies(pre, z3.And((lv & 0xFFFF) >= base, ((lv >> 16) - first_term) >= 0, ((lv >> 16) - first_term) * mask < size))))
         res.append(("advance-zero-identity", z3.Implies(z3.And(in_window, n == 0), lv == a)))
+        # a start below the bank window (accepted by the assembler; its own translation p0 is taken as given):
+        # advancing still yields the in-window address whose file offset is n larger
+        tgt2 = bv(p0) + n
+        exp2 = ((first_term + z3.UDiv(tgt2, B(mask))) << 16) | (B(base) + z3.URem(tgt2, B(mask)))
+        pre2 = z3.And(is_rom, z3.Not(in_window), tgt2 < size)
+        res.append(("advance-from-below-window", z3.Implies(pre2, z3.And(lv == exp2, z3.BoolVal(False) if ph is None else bv(ph) == tgt2))))
         return res
     m = cx.t("m")
     if kind == "assoc-unmapped":
